@@ -142,6 +142,19 @@ def run_ops(rec, ops, lexres, paths, ilifiles, final_only=False):
 
 
 def run_case(case, rec):
+    import wn._add as wnadd
+    old_batch = getattr(wnadd, 'BATCH_SIZE', None)
+    if old_batch is not None and case['seed'] % 4:
+        wnadd.BATCH_SIZE = [None, 1, 2, 3][case['seed'] % 4]      # index rows cross batch boundaries
+        rec.event('batch.small')
+    try:
+        _run_case(case, rec)
+    finally:
+        if old_batch is not None:
+            wnadd.BATCH_SIZE = old_batch
+
+
+def _run_case(case, rec):
     r = random.Random(case['seed'])
     pool = [f'i{n}' for n in range(1, 9)]
     prof = doc.Profile(max_entries=3, max_synsets=5, ili='shared', ili_pool=pool[:6], idstyle='prefixed', relations=False)
